@@ -115,7 +115,7 @@ func alphabetFor(builtins []Step, skipTx bool, full bool, nusers int, doubleDept
 
 // ---------------------------------------------------------------- generators
 
-const rule = "case = (pipeline, SkipDefaultTransaction, history); the built-in registrations read from callbacks/callbacks.go are replayed as recording stubs, then the history (Register / Before(t).Register / After(t).Register / Before(a).After(b).Register and the same requests chained After(b).Before(a) / Match(f) first in the chain / Replace / Remove / registration of a removed name again, over built-in names, user names u1..u4 used before or after their registration, an unknown name and '*') runs on the real processor and the pipeline is fired through db.Create/Find/Update/Delete/Row/Exec after every step. Streams: exhaustive = every in-domain history up to the tier's length over the small alphabet; main = random histories of length 1..8 kept outside the known-finding classes; known = histories inside a known-finding class (cyclic or *-unsatisfiable constraints, Replace of a * callback), judged like all others and reported as KNOWN-FINDING; edge = out-of-domain calls (duplicate names, Replace/Remove of names that are not live, constrained Replace, user Match guards): model = implementation only. distinct = distinct (pipeline, tx, history) ; non-trivial = in the domain, at least one Before/After request binds (live target or '*'), the last call returned nil and at least two callbacks fired."
+const rule = "case = (pipeline, SkipDefaultTransaction, history); the built-in registrations read from callbacks/callbacks.go are replayed as recording stubs, then the history (Register / Before(t).Register / After(t).Register / Before(a).After(b).Register and the same requests chained After(b).Before(a) / Match(f) first in the chain / Replace / Remove / registration of a removed name again, over built-in names, user names u1..u4 used before or after their registration, an unknown name and '*') runs on the real processor and the pipeline is fired through db.Create/Find/Update/Delete/Row/Exec after every step. Streams: exhaustive = every in-domain history up to the tier's length over the small alphabet; main = random histories of length 1..8 kept outside the known-finding classes; known = histories inside a known-finding class (cyclic or *-unsatisfiable constraints, Replace of a * callback), judged like all others and reported as KNOWN-FINDING; backward = long histories (9..30 calls, up to ~40 compiled callbacks) inside the backward domain of c17_backward_domain_correct (requests name callbacks registered earlier - built-in or user, live, replaced or removed - or unregistered names, never '*'); edge = out-of-domain calls (duplicate names, Replace/Remove of names that are not live, constrained Replace, user Match guards): model = implementation only. distinct = distinct (pipeline, tx, history) ; non-trivial = in the domain, at least one Before/After request binds (live target or '*'), the last call returned nil and at least two callbacks fired."
 
 func cloneSteps(h []Step) []Step { return append([]Step{}, h...) }
 
@@ -244,12 +244,152 @@ func randomHistory(r *lib.Rng, pipeline string, skipTx bool, builtins []Step, mo
 			if r2.class() == "" { // neither a known class nor the (fixed) self-target label
 				break
 			}
+			if theoremDomain(Input{SkipTx: skipTx, Steps: append(cloneSteps(in.Steps), s)}) != "none" {
+				break // inside the backward domain no class applies (sigOf)
+			}
 			if try == 20 {
 				s = Step{Kind: "register", Name: "w" + fmt.Sprint(len(in.Steps))}
 				break
 			}
 		}
 		in.Steps = append(in.Steps, s)
+	}
+	return in
+}
+
+// predictConflict: the simple insertion procedure the sorter amounts to in the backward domain
+// (C17_Plugin.simple_loop), on the live callbacks in registration order: does it end in a conflict?
+// Used by the generator only (to keep most long histories free of a standing error).
+func predictConflict(live []entry) bool {
+	var sorted []string
+	idx := func(n string) int {
+		for i := len(sorted) - 1; i >= 0; i-- {
+			if sorted[i] == n {
+				return i
+			}
+		}
+		return -1
+	}
+	for _, e := range live {
+		if e.Before != "" {
+			if si := idx(e.Before); si >= 0 {
+				if ci := idx(e.Name); ci < 0 {
+					sorted = append(sorted[:si], append([]string{e.Name}, sorted[si:]...)...)
+				} else if ci > si {
+					return true
+				}
+			}
+		}
+		if e.After != "" {
+			if si := idx(e.After); si >= 0 {
+				if ci := idx(e.Name); ci < 0 {
+					sorted = append(sorted, e.Name)
+				} else if ci < si {
+					return true
+				}
+			}
+		}
+		if idx(e.Name) < 0 {
+			sorted = append(sorted, e.Name)
+		}
+	}
+	return false
+}
+
+// backwardHistory: a long history inside the backward domain (C17_BackDef.backward_hist, theorem
+// c17_backward_domain_correct): requests name callbacks registered EARLIER (built-in or user; live, replaced
+// or removed by now) or a name nothing is registered under, never "*"; a name that has been named as a
+// target is not registered (again).  9..30 calls: up to ~40 compiled callbacks (sort.SliceStable's merge
+// path; without "*" its comparator is constantly false).
+func backwardHistory(r *lib.Rng, pipeline string, skipTx bool, builtins []Step) Input {
+	in := Input{Pipeline: pipeline, SkipTx: skipTx, Steps: cloneSteps(builtins)}
+	n := r.Range(9, 30)
+	F := map[string]bool{}
+	next := 1
+	for len(in.Steps)-len(builtins) < n {
+		ref := newRef()
+		var earlier []string // every name registered so far, in order
+		seen := map[string]bool{}
+		for i, s := range in.Steps {
+			ref.apply(i, s, skipTx)
+			if s.Kind == "register" && !seen[s.Name] {
+				seen[s.Name] = true
+				earlier = append(earlier, s.Name)
+			}
+		}
+		var live, freed []string
+		for _, e := range ref.live {
+			live = append(live, e.Name)
+		}
+		for _, u := range earlier {
+			if ref.used[u] && ref.find(u) < 0 && !F[u] {
+				freed = append(freed, u)
+			}
+		}
+		target := func(self string) string {
+			for {
+				t := "zz:unknown"
+				switch x := r.Intn(10); {
+				case x < 5 && len(live) > 0:
+					t = lib.Pick(r, live)
+				case x < 8:
+					t = lib.Pick(r, earlier)
+				case x < 9:
+					t = "zz:other"
+				}
+				if t != self {
+					return t
+				}
+			}
+		}
+		var s Step
+		for try := 0; ; try++ {
+			k := r.Intn(10)
+			switch {
+			case k < 6 || len(live) == 0:
+				name := fmt.Sprintf("u%d", next)
+				if len(freed) > 0 && r.Chance(1, 3) {
+					name = lib.Pick(r, freed) // a removed name nobody has named is registered again
+				}
+				s = Step{Kind: "register", Name: name}
+				switch r.Intn(9) {
+				case 0:
+				case 1, 2, 3:
+					s.Before = target(name)
+				case 4, 5:
+					s.After = target(name)
+				default:
+					s.Before, s.After = target(name), target(name)
+					if r.Bool() {
+						s.Chain = "AB"
+					}
+				}
+				if r.Chance(1, 20) {
+					s.Tx = true
+				}
+			case k < 8:
+				s = Step{Kind: "replace", Name: lib.Pick(r, live)}
+			default:
+				s = Step{Kind: "remove", Name: lib.Pick(r, live)}
+			}
+			r2 := newRef()
+			for i, x := range in.Steps {
+				r2.apply(i, x, skipTx)
+			}
+			r2.apply(len(in.Steps), s, skipTx)
+			if try < 8 && predictConflict(r2.live) && !predictConflict(ref.live) && r.Chance(4, 5) {
+				continue // most histories stay free of a standing error
+			}
+			break
+		}
+		if s.Kind == "register" && s.Name == fmt.Sprintf("u%d", next) {
+			next++
+		}
+		backStep(F, s, skipTx)
+		in.Steps = append(in.Steps, s)
+	}
+	if theoremDomain(in) == "none" {
+		panic("c17: backwardHistory left the backward domain: " + descHist(in))
 	}
 	return in
 }
@@ -297,5 +437,11 @@ func generate(a lib.Args, bi map[string][]Step, base func(string) []Step, add fu
 			}
 		}
 		add(mode, in)
+	}
+	// long histories inside the backward domain (the unbounded theorem c17_backward_domain_correct)
+	nb := budget / 30
+	for i := 0; i < nb; i++ {
+		p := lib.Pick(r, pipelines)
+		add("backward", backwardHistory(r, p, r.Chance(1, 4), base(p)))
 	}
 }
